@@ -1,14 +1,26 @@
 (* C11 — loss minimisation attains the constrained optimum: property theorems only.
    Everything is generic in the ordered field F (holds for the executed Qc and for R alike), axiom-free.
    Vectors are functions nat -> F with explicit length n; C is the feasible (physical) set, P the projection
-   used by the algorithm, f the loss, g its gradient, mu / gamma the algorithm options. *)
+   used by the algorithm, f the loss, g its gradient, mu / gamma the algorithm options.
+
+   Part A  backtracking projected gradient (model Model/C11_Pgdb.v = ProjectedGradientDescentBacktracking.optimize)
+           A1-A5  one step / a whole run / optimality certificates, for a EUCLIDEAN projection P (hypothesis C11_obtuse)
+           A6-A9  squared-error loss: convexity, exact expansion, Armijo acceptance region, termination of the line search
+           A10    complete specification of the line search for any loss
+   Part B  which inner product quara's projection belongs to (M = L^T L of the variable -> stacked-vector embedding), when it
+           is the Euclidean one, what survives when it is not, and the refutation of "stationary => optimal" for the
+           3-outcome on_para_eq_constraint=True POVM metric (known finding C11-3; the code is NOT repaired, so the refutation
+           is a statement about the code as it is and the positive theorems B3-B5 are about what a repair must do)
+   Part C  CVXPY interface maps (model Model/C11_Cvx.v = quara/interface/cvxpy/conversion.py after fix
+           mprocess-element-choi-from-var-last-outcome) *)
 From Coq Require Import Arith List Bool ZArith QArith Qcanon.
-From QV.Core Require Import OF Sums Mat QcOF.
-From QV.Model Require Import C11_Pgdb.
-From QV.Proofs Require Import C11_Pgdb.
+From QV.Core Require Import OF Sums Mat Cplx QcOF C01_HermPsd.
+From QV.Model Require Import QObj C11_Pgdb C11_Cvx.
+From QV.Proofs Require Import C11_Pgdb C11_Metric C11_PovmMetric C11_Cvx C11_Examples.
 Import ListNotations.
 
-(* T1  the projected-gradient direction  y = P(x - g x/mu) - x  is a descent direction:  <g x, y> <= - mu |y|^2 *)
+(* ====================================================================== Part A *)
+(* A1 (T1)  the projected-gradient direction  y = P(x - g x/mu) - x  is a descent direction:  <g x, y> <= - mu |y|^2 *)
 Theorem C11_descent_direction : forall (F : OF) (n : nat) (C : @vec F -> Prop) (P : @vec F -> @vec F)
     (g : @vec F -> @vec F) (mu : F),
   mu <> c0 F -> kle F (c0 F) mu -> C11_obtuse F n C P ->
@@ -17,7 +29,7 @@ Theorem C11_descent_direction : forall (F : OF) (n : nat) (C : @vec F -> Prop) (
 Proof. exact C11_Pgdb.C11_descent_direction. Qed.
 Print Assumptions C11_descent_direction.
 
-(* T2  an accepted Armijo step decreases the loss by at least gamma*alpha*mu*|y|^2 *)
+(* A2 (T2)  an accepted Armijo step decreases the loss by at least gamma*alpha*mu*|y|^2 *)
 Theorem C11_armijo_decrease : forall (F : OF) (n : nat) (C : @vec F -> Prop) (P : @vec F -> @vec F)
     (f : @vec F -> F) (g : @vec F -> @vec F) (mu gamma : F),
   mu <> c0 F -> kle F (c0 F) mu -> kle F (c0 F) gamma -> C11_obtuse F n C P ->
@@ -28,22 +40,19 @@ Theorem C11_armijo_decrease : forall (F : OF) (n : nat) (C : @vec F -> Prop) (P 
 Proof. exact C11_Pgdb.C11_armijo_decrease. Qed.
 Print Assumptions C11_armijo_decrease.
 
-(* T3  along a whole run of the loop as coded (any stopping mode, any history window, any iteration limit, any
+(* A3 (T3)  along a whole run of the loop as coded (any stopping mode, any history window, any iteration limit, any
    line-search fuel): every iterate is feasible and the loss never increases from one iterate to the next
    (xs is newest first, so [C11_nonincreasing (map f xs)] reads f x_k <= f x_{k-1} <= ... <= f x_0) *)
 Theorem C11_run_feasible_monotone : forall (F : OF) (n : nat) (C : @vec F -> Prop) (P : @vec F -> @vec F)
     (f : @vec F -> F) (g : @vec F -> @vec F) (mu gamma : F),
-  mu <> c0 F -> kle F (c0 F) mu -> kle F (c0 F) gamma -> C11_obtuse F n C P -> C11_convex_set F C ->
-  forall sq eps mode h fuel max_iteration x0 xs errs k w, C x0 ->
+  mu <> c0 F -> kle F (c0 F) mu -> kle F (c0 F) gamma -> C11_obtuse F n C P ->
+  forall sq eps mode h fuel max_iteration x0 xs errs k w, C11_convex_set F C -> C x0 ->
   C11_optimize F sq n f g P mu gamma eps mode h fuel max_iteration x0 = C11_Done xs errs k w ->
   Forall C xs /\ C11_nonincreasing F (map f xs).
-Proof. intros F n C P f g mu gamma H1 H2 H3 H4 H5 sq eps mode h fuel mi x0 xs errs k w Cx0 H.
-  unfold C11_optimize in H.
-  eapply (C11_Pgdb.C11_loop_inv F n C P f g mu gamma H1 H2 H3 H4 sq eps mode h fuel); [exact H5| |exact H].
-  split; [constructor; [exact Cx0|constructor]|exact I]. Qed.
+Proof. exact C11_Pgdb.C11_optimize_inv. Qed.
 Print Assumptions C11_run_feasible_monotone.
 
-(* T4  y = 0  =>  x minimises f over C *)
+(* A4 (T4)  y = 0  =>  x minimises f over C *)
 Theorem C11_stationary_optimal : forall (F : OF) (n : nat) (C : @vec F -> Prop) (P : @vec F -> @vec F)
     (f : @vec F -> F) (g : @vec F -> @vec F) (mu : F),
   mu <> c0 F -> kle F (c0 F) mu -> C11_obtuse F n C P -> C11_first_order_convex F n f g ->
@@ -51,7 +60,7 @@ Theorem C11_stationary_optimal : forall (F : OF) (n : nat) (C : @vec F -> Prop) 
 Proof. exact C11_Pgdb.C11_stationary_optimal. Qed.
 Print Assumptions C11_stationary_optimal.
 
-(* T5  a-posteriori optimality gap: every competitor z in C satisfies  f z - f x >= <g,y> - mu <y, z - x - y> *)
+(* A5 (T5)  a-posteriori optimality gap: every competitor z in C satisfies  f z - f x >= <g,y> - mu <y, z - x - y> *)
 Theorem C11_gap_certificate : forall (F : OF) (n : nat) (C : @vec F -> Prop) (P : @vec F -> @vec F)
     (f : @vec F -> F) (g : @vec F -> @vec F) (mu : F),
   mu <> c0 F -> kle F (c0 F) mu -> C11_obtuse F n C P -> C11_first_order_convex F n f g ->
@@ -60,13 +69,48 @@ Theorem C11_gap_certificate : forall (F : OF) (n : nat) (C : @vec F -> Prop) (P 
 Proof. exact C11_Pgdb.C11_gap. Qed.
 Print Assumptions C11_gap_certificate.
 
-(* T6  the squared-error loss  f v = |A v + b - q|^2  with gradient 2 A^T (A v + b - q) is first-order convex (outright) *)
+(* A5u  the universal form, PARTIAL: "no feasible point at all beats x by more than  -<g,y> + mu r"  is proved from a bound D2
+   on the squared distance of the feasible set to the trial point x + y (hypothesis) and r^2 >= |y|^2 D2.
+   FULL statement of the plan (not proved): the same with D2 instantiated for the physical sets of quara
+   (tr rho^2 <= (tr rho)^2 and its analogues for POVMs / Choi matrices), i.e. without the diameter hypothesis. *)
+Theorem C11_universal_gap_partial : forall (F : OF) (n : nat) (C : @vec F -> Prop) (P : @vec F -> @vec F)
+    (f : @vec F -> F) (g : @vec F -> @vec F) (mu : F),
+  mu <> c0 F -> kle F (c0 F) mu -> C11_obtuse F n C P -> C11_first_order_convex F n f g ->
+  forall (x : @vec F) (D2 r : F),
+  let y := C11_dir F P g mu x in
+  (forall z, C z -> kle F (C11_nrm2 F n (vsub (vsub z x) y)) D2) ->
+  kle F (c0 F) r -> kle F (cmul F (C11_nrm2 F n y) D2) (cmul F r r) ->
+  forall z, C z -> kle F (csub F (f x) (f z)) (cadd F (copp F (dot n (g x) y)) (cmul F mu r)).
+Proof. exact C11_Pgdb.C11_universal_gap. Qed.
+Print Assumptions C11_universal_gap_partial.
+
+(* A6 (T6)  the squared-error loss  f v = |A v + b - q|^2  with gradient 2 A^T (A v + b - q) is first-order convex (outright) *)
 Theorem C11_squared_error_convex : forall (F : OF) (m n : nat) (A : @mat F) (b q : @vec F),
   C11_first_order_convex F n (C11_sq_loss F m n A b q) (C11_sq_grad F m n A b q).
 Proof. exact C11_Pgdb.C11_sq_convex. Qed.
 Print Assumptions C11_squared_error_convex.
 
-(* T7  for the squared-error loss the Armijo inner loop terminates: K halvings suffice as soon as
+(* A7  exact second-order expansion of the squared-error loss:  f(x + d) = f x + <g x, d> + |A d|^2
+   (so [C11_sq_grad] IS the gradient of [C11_sq_loss]) *)
+Theorem C11_squared_error_expansion : forall (F : OF) (m n : nat) (A : @mat F) (b q x d : @vec F),
+  C11_sq_loss F m n A b q (vadd x d) =
+  cadd F (cadd F (C11_sq_loss F m n A b q x) (dot n (C11_sq_grad F m n A b q x) d)) (C11_nrm2 F m (mv n A d)).
+Proof. exact C11_Pgdb.C11_sq_expansion. Qed.
+Print Assumptions C11_squared_error_expansion.
+
+(* A8  squared-error loss: the Armijo test holds for EVERY 0 <= alpha with  alpha * lambda <= 2 (1-gamma) mu
+   (lambda = 2|A|_F^2), for any direction with  <g,y> <= - mu |y|^2  (A1 provides it) and gamma <= 1 *)
+Theorem C11_squared_error_armijo_holds : forall (F : OF) (m n : nat) (A : @mat F) (b q : @vec F)
+    (mu gamma : F) (x y : @vec F) (alpha : F),
+  kle F (c0 F) alpha -> kle F gamma (c1 F) ->
+  kle F (dot n (C11_sq_grad F m n A b q x) y) (copp F (cmul F mu (C11_nrm2 F n y))) ->
+  kle F (cmul F alpha (C11_sq_lambda F m n A)) (cmul F (cmul F (C11_two F) (csub F (c1 F) gamma)) mu) ->
+  C11_armijo_ok F (C11_phi F (C11_sq_loss F m n A b q) x y) (C11_sq_loss F m n A b q x) gamma
+    (C11_slope F n (C11_sq_grad F m n A b q) x y) alpha = true.
+Proof. exact C11_Pgdb.C11_sq_armijo_holds. Qed.
+Print Assumptions C11_squared_error_armijo_holds.
+
+(* A9 (T7)  for the squared-error loss the Armijo inner loop terminates: K halvings suffice as soon as
    2^-K * lambda <= 2 (1-gamma) mu  (lambda = 2|A|_F^2 bounds the curvature), and the accepted alpha is 1 or
    larger than (1-gamma) mu / lambda *)
 Theorem C11_squared_error_backtracking_terminates : forall (F : OF) (m n : nat) (A : @mat F) (b q : @vec F)
@@ -80,3 +124,211 @@ Theorem C11_squared_error_backtracking_terminates : forall (F : OF) (m n : nat) 
     /\ (a = c1 F \/ ~ kle F (cmul F (cadd F a a) (C11_sq_lambda F m n A)) (cmul F (cmul F (C11_two F) (csub F (c1 F) gamma)) mu)).
 Proof. exact C11_Pgdb.C11_sq_backtrack_terminates. Qed.
 Print Assumptions C11_squared_error_backtracking_terminates.
+
+(* A10  the line search as coded (alpha = 1; while left > right: alpha *= 0.5), for ANY loss: the accepted alpha passes the
+   Armijo test, lies in [0,1], is 2^-c for the number c of halvings and is the FIRST success *)
+Theorem C11_backtracking_line_search_spec : forall (F : OF) (fuel : nat) (phi : F -> F) (fx gamma slope a : F),
+  C11_backtrack F fuel phi fx gamma slope (c1 F) = Some a ->
+  C11_armijo_ok F phi fx gamma slope a = true /\ kle F (c0 F) a /\ kle F a (c1 F)
+  /\ (a = c1 F \/ C11_armijo_ok F phi fx gamma slope (cadd F a a) = false)
+  /\ (exists c : nat, C11_backtrack_count F fuel phi fx gamma slope (c1 F) = Some c /\ a = C11_pow F (C11_half F) c).
+Proof. exact C11_Pgdb.C11_backtrack_spec. Qed.
+Print Assumptions C11_backtracking_line_search_spec.
+
+(* ====================================================================== Part B *)
+(* B1  quara's physical projection (variable -> stacked full vector v |-> L v + c, EUCLIDEAN projection Pfull of the full
+   vector onto the image of the feasible set, convert back) is, seen from variable space, the nearest-point map of the
+   inner product  <x, M y>  with  M = L^T L *)
+Theorem C11_projection_metric_pullback : forall (F : OF) (N n : nat) (L : @mat F) (c : @vec F)
+    (C Cfull : @vec F -> Prop) (P Pfull : @vec F -> @vec F),
+  C11_obtuse F N Cfull Pfull ->
+  (forall u, veq N (C11_emb F n L c (P u)) (Pfull (C11_emb F n L c u))) ->
+  (forall u, C (P u)) ->
+  (forall z, C z -> Cfull (C11_emb F n L c z)) ->
+  C11_obtuse_ip F (C11_ipM F n (C11_metric_of F N L)) C P.
+Proof. exact C11_Metric.C11_pullback_obtuse. Qed.
+Print Assumptions C11_projection_metric_pullback.
+
+(* B2  M = c I with c > 0 (states, gates, everything with on_para_eq_constraint=False: c = 1; 2-outcome POVMs with
+   on_para_eq_constraint=True: c = 2): the projection is the Euclidean one, so A1-A5 apply *)
+Theorem C11_scalar_metric_is_euclidean : forall (F : OF) (n : nat) (M : @mat F) (c : F)
+    (C : @vec F -> Prop) (P : @vec F -> @vec F),
+  (forall i j, (i < n)%nat -> (j < n)%nat -> M i j = (if Nat.eqb i j then c else c0 F)) ->
+  kle F (c0 F) c -> c <> c0 F ->
+  C11_obtuse_ip F (C11_ipM F n M) C P -> C11_obtuse F n C P.
+Proof. exact C11_Metric.C11_scalar_metric_obtuse. Qed.
+Print Assumptions C11_scalar_metric_is_euclidean.
+
+(* B2a  the model of Povm.convert_var_to_stacked_vector (on_para_eq_constraint=True) as an affine map: entry (x, a) of
+   L var + c  is entry a of the coefficient vector of element x of quara's variable -> POVM conversion [C11_povm_vec]
+   (the function the cvx_maps sub-check ties to quara), for every number S K of outcomes and every block size D *)
+Theorem C11_povm_embedding_is_conversion : forall (F : OF) (K D : nat) (sd : F) (var : rvec F) (x a : nat),
+  (x <= K)%nat -> (a < D)%nat ->
+  C11_emb F (K * D) (C11_povm_L F D (S K)) (C11_povm_c F D (S K) sd) var (x * D + a)%nat
+  = C11_povm_vec F D (S K) sd var x a.
+Proof. exact C11_PovmMetric.C11_povm_emb_is_conversion. Qed.
+Print Assumptions C11_povm_embedding_is_conversion.
+
+(* B2b  its metric, for every number of outcomes and every dimension:  (L^T L)_ij = delta_ij + [i mod D = j mod D],
+   i.e.  M = (I + 1 1^T) (x) I_D  *)
+Theorem C11_povm_variable_metric : forall (F : OF) (K D i j : nat), (i < K * D)%nat -> (j < K * D)%nat ->
+  C11_metric_of F (S K * D) (C11_povm_L F D (S K)) i j
+  = cadd F (if Nat.eqb i j then c1 F else c0 F) (if Nat.eqb (i mod D) (j mod D) then c1 F else c0 F).
+Proof. exact C11_PovmMetric.C11_povm_metric. Qed.
+Print Assumptions C11_povm_variable_metric.
+
+(* B2c  with three or more outcomes (K >= 2 free elements) this metric is NOT c I for any c: the hypothesis of B2 fails and
+   A1-A5 do not apply to the code as written (two outcomes: M = 2 I, Example C11_ex_povm2_metric) *)
+Theorem C11_povm_variable_metric_not_scalar : forall (F : OF) (K D : nat) (c : F), (0 < D)%nat -> (2 <= K)%nat ->
+  ~ (forall i j, (i < K * D)%nat -> (j < K * D)%nat ->
+       C11_metric_of F (S K * D) (C11_povm_L F D (S K)) i j = (if Nat.eqb i j then c else c0 F)).
+Proof. exact C11_PovmMetric.C11_povm3_metric_not_scalar. Qed.
+Print Assumptions C11_povm_variable_metric_not_scalar.
+
+(* B3-B5  for a general symmetric metric: stepping along the gradient h OF THE SAME inner product (<h x, M v> = <g x, v>,
+   i.e. h = M^-1 g) restores descent direction, a-posteriori gap and "stationary => optimal" *)
+Theorem C11_descent_direction_metric : forall (F : OF) (n : nat) (M : @mat F) (C : @vec F -> Prop)
+    (P g h : @vec F -> @vec F) (mu : F),
+  mu <> c0 F -> kle F (c0 F) mu -> C11_obtuse_ip F (C11_ipM F n M) C P ->
+  (forall x v, C11_ipM F n M (h x) v = dot n (g x) v) ->
+  forall x, C x ->
+  let y := C11_dir F P h mu x in kle F (dot n (g x) y) (copp F (cmul F mu (C11_ipM F n M y y))).
+Proof. exact C11_Metric.C11_descent_direction_ip. Qed.
+Print Assumptions C11_descent_direction_metric.
+
+Theorem C11_gap_certificate_metric : forall (F : OF) (n : nat) (M : @mat F) (C : @vec F -> Prop) (P : @vec F -> @vec F)
+    (f : @vec F -> F) (g h : @vec F -> @vec F) (mu : F),
+  mu <> c0 F -> kle F (c0 F) mu -> C11_obtuse_ip F (C11_ipM F n M) C P ->
+  (forall x v, C11_ipM F n M (h x) v = dot n (g x) v) ->
+  C11_first_order_convex F n f g ->
+  forall x z, C z ->
+  let y := C11_dir F P h mu x in
+  kle F (csub F (dot n (g x) y) (cmul F mu (C11_ipM F n M y (vsub (vsub z x) y)))) (csub F (f z) (f x)).
+Proof. exact C11_Metric.C11_gap_ip. Qed.
+Print Assumptions C11_gap_certificate_metric.
+
+Theorem C11_stationary_optimal_metric : forall (F : OF) (n : nat) (M : @mat F) (C : @vec F -> Prop) (P : @vec F -> @vec F)
+    (f : @vec F -> F) (g h : @vec F -> @vec F) (mu : F),
+  mu <> c0 F -> kle F (c0 F) mu -> C11_obtuse_ip F (C11_ipM F n M) C P ->
+  (forall x v, C11_ipM F n M (h x) v = dot n (g x) v) ->
+  C11_first_order_convex F n f g ->
+  forall x z, C z -> veq n (C11_dir F P h mu x) vzero -> kle F (f x) (f z).
+Proof. exact C11_Metric.C11_stationary_optimal_ip. Qed.
+Print Assumptions C11_stationary_optimal_metric.
+
+(* B6  the code as written (Euclidean gradient step, projection of the metric M, M symmetric): the only per-step certificate
+   is the M-weighted one,  <M g, y> + mu <y, M y> <= 0  (checked on every replayed step of every run) *)
+Theorem C11_descent_certificate_as_coded : forall (F : OF) (n : nat) (M : @mat F) (C : @vec F -> Prop)
+    (P g : @vec F -> @vec F) (mu : F),
+  mu <> c0 F -> kle F (c0 F) mu ->
+  (forall i j, (i < n)%nat -> (j < n)%nat -> M i j = M j i) ->
+  C11_obtuse_ip F (C11_ipM F n M) C P ->
+  forall x, C x -> kle F (C11_descent_defect_metric F n M mu (g x) (C11_dir F P g mu x)) (c0 F).
+Proof. exact C11_Metric.C11_descent_as_coded_metric. Qed.
+Print Assumptions C11_descent_certificate_as_coded.
+
+(* B7  REFUTED for the code as it is (known finding C11-3, not repaired): with the metric M = [[2,1],[1,2]] = L^T L of the
+   3-outcome on_para_eq_constraint=True POVM variable (Example C11_ex_povm3_metric), "stationary => optimal" (A4) fails:
+   C = { z_0 >= 0 } convex, P its nearest-point map for <., M .>, f z = (z_0+1)^2 + (z_1-1)^2 convex with gradient g,
+   x = (0, 1/2) and z = (0, 1) feasible, the iteration  x |-> P(x - g x/mu)  (mu = 1) is stationary at x, and f z < f x.
+   Holds in every ordered field. *)
+Theorem C11_wrong_metric_stationary_not_optimal_refuted : forall F : OF,
+  C11_convex_set F (C11_wm_C F)
+  /\ C11_obtuse_ip F (C11_ipM F 2 (C11_wm_M F)) (C11_wm_C F) (C11_wm_P F)
+  /\ C11_first_order_convex F 2 (C11_sq_loss F 2 2 (C11_wm_A F) (C11_wm_b F) (C11_wm_q F))
+                                (C11_sq_grad F 2 2 (C11_wm_A F) (C11_wm_b F) (C11_wm_q F))
+  /\ C11_wm_C F (C11_wm_x F) /\ C11_wm_C F (C11_wm_z F)
+  /\ veq 2 (C11_dir F (C11_wm_P F) (C11_sq_grad F 2 2 (C11_wm_A F) (C11_wm_b F) (C11_wm_q F)) (c1 F) (C11_wm_x F)) vzero
+  /\ ~ kle F (C11_sq_loss F 2 2 (C11_wm_A F) (C11_wm_b F) (C11_wm_q F) (C11_wm_x F))
+             (C11_sq_loss F 2 2 (C11_wm_A F) (C11_wm_b F) (C11_wm_q F) (C11_wm_z F)).
+Proof. exact C11_Pgdb.C11_wm_summary. Qed.
+Print Assumptions C11_wrong_metric_stationary_not_optimal_refuted.
+
+(* ====================================================================== Part C *)
+(* C1 (T8a)  dmat_from_var denotes the operator of quara's state variable (c = 1/sqrt d, sd = sqrt d, dd = d as passed) *)
+Theorem C11_dmat_from_var_denotes : forall (F : OF) (d : nat) (sd c dd : F) (B : nat -> cmat F),
+  basis_0th_identity d sd B -> cmul F c sd = c1 F -> cmul F sd sd = dd ->
+  forall (var : rvec F) (i j : nat), (i < d)%nat -> (j < d)%nat ->
+  C11_dmat_from_var F d dd B var i j = op_of_vec d B (C11_state_vec F c var) i j.
+Proof. exact C11_Cvx.C11_dmat_from_var_ok. Qed.
+Print Assumptions C11_dmat_from_var_denotes.
+
+(* C2 (T8b)  choi_from_var denotes the Choi matrix of quara's gate variable *)
+Theorem C11_choi_from_var_denotes : forall (F : OF) (d : nat) (sd c dd : F) (B : nat -> cmat F),
+  basis_0th_identity d sd B -> cmul F c sd = c1 F -> cmul F sd sd = dd ->
+  forall (var : rvec F) (i j : nat), (i < d * d)%nat -> (j < d * d)%nat ->
+  C11_choi_from_var F d dd B var i j = choi_of_hs d B (C11_gate_hs F (d * d) var) i j.
+Proof. exact C11_Cvx.C11_choi_from_var_ok. Qed.
+Print Assumptions C11_choi_from_var_denotes.
+
+(* C3  mprocess_element_choi_from_var (code after fix mprocess-element-choi-from-var-last-outcome) denotes the Choi matrix of
+   the instrument element of quara's variable, for EVERY outcome x, every number of outcomes, every basis *)
+Theorem C11_mprocess_element_choi_from_var_denotes : forall (F : OF) (d m : nat) (B : nat -> cmat F) (var : rvec F)
+    (x i j : nat),
+  C11_mp_choi_from_var F d m B var x i j = choi_of_hs d B (C11_mp_hs F (d * d) m var x) i j.
+Proof. exact C11_Cvx.C11_mp_choi_from_var_ok. Qed.
+Print Assumptions C11_mprocess_element_choi_from_var_denotes.
+
+(* C4  REFUTED, about [C11_mp_choi_from_var_before_fix] = the function AS CODED BEFORE fix
+   mprocess-element-choi-from-var-last-outcome: for the last outcome and var = 0 it differs from the Choi matrix of the
+   instrument element wherever B_0 (x) conj B_0 is non-zero (any basis, any number of outcomes) *)
+Theorem C11_mprocess_element_choi_from_var_before_fix_refuted : forall (F : OF) (d m : nat) (B : nat -> cmat F) (i j : nat),
+  (0 < d)%nat -> bbc d B 0%nat 0%nat i j <> c0 (CF F) ->
+  C11_mp_choi_from_var_before_fix F d m B (fun _ => c0 F) (m - 1) i j
+  <> choi_of_hs d B (C11_mp_hs F (d * d) m (fun _ => c0 F) (m - 1)) i j.
+Proof. exact C11_Cvx.C11_mp_before_fix_refuted. Qed.
+Print Assumptions C11_mprocess_element_choi_from_var_before_fix_refuted.
+
+(* C5 (T8c)  the four _with_sparsity expressions (cp.reshape in column-major order of row-major flattenings: density matrix,
+   POVM elements, Choi matrix of a gate, Choi matrices of instrument elements) denote the TRANSPOSE of the object's operator *)
+Theorem C11_with_sparsity_denote_transpose : forall (F : OF) (d m : nat) (c sd : F) (B : nat -> cmat F),
+  (forall (var : rvec F) (i j : nat), (i < d)%nat -> (j < d)%nat ->
+     C11_dmat_sp F d c B var i j = mT (op_of_vec d B (C11_state_vec F c var)) i j)
+  /\ (forall (var : rvec F) (x i j : nat), (i < d)%nat -> (j < d)%nat ->
+     C11_povm_sp F d m sd B var x i j = mT (op_of_vec d B (C11_povm_vec F (d * d) m sd var x)) i j)
+  /\ (forall (var : rvec F) (i j : nat), (i < d * d)%nat -> (j < d * d)%nat ->
+     C11_choi_sp F d B var i j = mT (choi_of_hs d B (C11_gate_hs F (d * d) var)) i j)
+  /\ (forall (var : rvec F) (x i j : nat), (i < d * d)%nat -> (j < d * d)%nat ->
+     C11_mp_choi_sp F d m B var x i j = mT (choi_of_hs d B (C11_mp_hs F (d * d) m var x)) i j).
+Proof. exact C11_Cvx.C11_sp_all_ok. Qed.
+Print Assumptions C11_with_sparsity_denote_transpose.
+
+(* C6  `M^T >> 0` is the same constraint as `M >> 0` (for every complex matrix), so by C5 the _with_sparsity constraints are
+   exactly the physical inequality constraints *)
+Theorem C11_transpose_same_psd_constraint : forall (F : OF) (n : nat) (H : cmat F), HPSD n (mT H) <-> HPSD n H.
+Proof. exact C11_Cvx.C11_transpose_hpsd. Qed.
+Print Assumptions C11_transpose_same_psd_constraint.
+
+(* ====================================================================== the hypotheses are satisfiable *)
+(* a convex set with its Euclidean projection (half space of F^2, clipping), in every ordered field *)
+Example C11_ex_projection : forall F : OF, C11_convex_set F (C11_ex_C F) /\ C11_obtuse F 2 (C11_ex_C F) (C11_ex_P F).
+Proof. intros F. split; [exact (C11_ex_convex F)|exact (C11_ex_obtuse F)]. Qed.
+(* hence A1 and A5 (with A6) hold on this instance for the squared-error loss of the executed run below *)
+Example C11_ex_gap_instance : forall x z : @vec Qc_OF, C11_ex_C Qc_OF z ->
+  kle Qc_OF (C11_gap_bound Qc_OF 2 1%Qc x (C11_exq_g x) (C11_dir Qc_OF (C11_ex_P Qc_OF) C11_exq_g 1%Qc x) z)
+            (csub Qc_OF (C11_exq_f z) (C11_exq_f x)).
+Proof. apply (C11_gap_certificate Qc_OF 2 (C11_ex_C Qc_OF) (C11_ex_P Qc_OF) C11_exq_f C11_exq_g 1%Qc).
+  - discriminate.
+  - apply (one_nonneg Qc_OF).
+  - exact (C11_ex_obtuse Qc_OF).
+  - exact (C11_squared_error_convex Qc_OF 2 2 _ _ _). Qed.
+(* an executed run of the loop model over Qc ends in C11_Done (k = 3 iterations, step sizes 1, 1/2, 1, at the minimiser (0,1)) *)
+Example C11_ex_run_done : exists xs errs k w, C11_exq_run = C11_Done xs errs k w.
+Proof. exact C11_exq_run_is_done. Qed.
+Example C11_ex_run_values : C11_exq_run_ok = true.
+Proof. exact C11_exq_run_done. Qed.
+(* the embedding (v1, v2) |-> (v1, v2, e - v1 - v2) of a 3-outcome on_para_eq_constraint=True POVM variable has the metric
+   of the refutation B7 *)
+Example C11_ex_povm3_metric : forall F : OF, meq 2 2 (C11_metric_of F 3 (C11_ex_L3 F)) (C11_wm_M F).
+Proof. exact C11_ex_L3_metric. Qed.
+(* two outcomes: M = 2 I, so B2 applies with c = 2 *)
+Example C11_ex_povm2_metric : forall (F : OF) (D i j : nat), (i < 1 * D)%nat -> (j < 1 * D)%nat ->
+  C11_metric_of F (2 * D) (C11_povm_L F D 2) i j = (if Nat.eqb i j then cadd F (c1 F) (c1 F) else c0 F).
+Proof. exact C11_PovmMetric.C11_povm2_metric_scalar. Qed.
+(* a basis satisfying the hypotheses of C1 / C2 over Qc: 2 qubits (d = 4), B_0 = I/2, sd = sqrt 4 = 2, c = 1/2, dd = 4 *)
+Example C11_ex_basis : @basis_0th_identity Qc_OF 4 (Q2Qc 2) (C11_ex_B Qc_OF (Q2Qc (1 # 2)))
+  /\ cmul Qc_OF (Q2Qc (1 # 2)) (Q2Qc 2) = c1 Qc_OF /\ cmul Qc_OF (Q2Qc 2) (Q2Qc 2) = Q2Qc 4.
+Proof. split; [apply C11_ex_basis0; apply Qc_is_canon; reflexivity|]. split; apply Qc_is_canon; reflexivity. Qed.
+(* and the hypothesis of C4 holds for it *)
+Example C11_ex_bbc00_nonzero : bbc 4 (C11_ex_B Qc_OF (Q2Qc (1 # 2))) 0%nat 0%nat 0%nat 0%nat <> c0 (CF Qc_OF).
+Proof. exact C11_exq_bbc00. Qed.
